@@ -428,3 +428,54 @@ func Dump(c *kit.Corpus) any {
 	}
 	return out
 }
+
+// BuilderOpts selects how index.Builder is driven.
+type BuilderOpts struct {
+	ShardMax    int
+	Parallelism int
+	SizeMax     int
+	TrigramMax  int
+	Order       []int // permutation of document indices (nil = model order)
+	LargeFiles  []string
+}
+
+// BuildWithBuilder indexes r through the production index.Builder (skip decisions,
+// sharding, buffer pools, Finish) and returns the shard paths it produced.
+func BuildWithBuilder(dir string, r *kit.Repo, o BuilderOpts) ([]string, error) {
+	opts := index.Options{
+		IndexDir:              dir,
+		RepositoryDescription: *ZRepo(r),
+		DisableCTags:          true,
+		ShardMax:              o.ShardMax,
+		Parallelism:           o.Parallelism,
+		SizeMax:               o.SizeMax,
+		TrigramMax:            o.TrigramMax,
+		LargeFiles:            o.LargeFiles,
+	}
+	if len(r.SubRepos) > 0 {
+		opts.SubRepositories = opts.RepositoryDescription.SubRepoMap
+	}
+	b, err := index.NewBuilder(opts)
+	if err != nil {
+		return nil, err
+	}
+	order := o.Order
+	if order == nil {
+		for i := range r.Docs {
+			order = append(order, i)
+		}
+	}
+	for _, i := range order {
+		d := ZDoc(r.Docs[i])
+		if err := b.Add(d); err != nil {
+			b.Finish()
+			return nil, fmt.Errorf("add %q: %w", d.Name, err)
+		}
+	}
+	if err := b.Finish(); err != nil {
+		return nil, err
+	}
+	paths := opts.FindAllShards()
+	sort.Strings(paths)
+	return paths, nil
+}
